@@ -281,10 +281,22 @@ func ReadFixedString(buf *bytes.Buffer, fixedLen int) (string, error) {
 func ReadFixedStringTrimPadding(buf *bytes.Buffer, fixedLen int, padChar rune, padLeft bool) (string, error) {
 	strBytes := make([]byte, fixedLen)
 	_, err := io.ReadFull(buf, strBytes)
+	// Strip by byte comparison: the writer pads with byte(padChar), whereas a
+	// string(padChar) cutset is UTF-8 and neither matches a pad byte >= 0x80 nor
+	// leaves other bytes alone.
+	pad := byte(padChar)
 	if padLeft {
-		return string(bytes.TrimLeft(strBytes, string(padChar))), err
+		i := 0
+		for i < len(strBytes) && strBytes[i] == pad {
+			i++
+		}
+		return string(strBytes[i:]), err
 	}
-	return string(bytes.TrimRight(strBytes, string(padChar))), err
+	j := len(strBytes)
+	for j > 0 && strBytes[j-1] == pad {
+		j--
+	}
+	return string(strBytes[:j]), err
 }
 
 func ReadFixedStringList[T constraints.Unsigned](buf *bytes.Buffer, fixedLen int) ([]string, error) {
